@@ -2890,53 +2890,56 @@ pub const SITE_CTXS: [&str; 33] = [
 ];
 pub const SITE_KINDS: [&str; 7] = ["val", "ref", "clo", "topfn", "param", "patvar", "armvar"];
 
-/// `None`: the combination does not exist (e.g. a `dyn` receiver that is a Ref)
-pub fn capture_site_program(ctx: &str, kind: &str, depth: usize, rng: &mut Rng) -> Option<String> {
-    let k = 2 + rng.below(7);
-    let c1 = 1 + rng.below(3);
-    // the outer binding and the int-typed use of it
-    let (mut bind, mut e): (String, String) = match kind {
-        "val" => (format!("let x = {}; ", k), "x".into()),
-        "ref" => (format!("let x = ref({}); ", k), "ref_get(x)".into()),
-        "clo" => (format!("let x = |z: int32| z + {}; ", k), "x(3)".into()),
-        "topfn" => ("let x = topf; ".into(), "x(2)".into()),
-        "param" => (String::new(), "px".into()),
-        "patvar" => (format!("let (x, y0) = ({}, 1); ", k), "x".into()),
-        "armvar" => (String::new(), "x".into()),
+/// the int-typed use of the outer variable `var` of kind `kind` (kinds of SITE_KINDS, plus the
+/// Shape-typed kinds of the spelled stream, `harness/src/c08spell.rs`)
+pub fn site_use(kind: &str, var: &str) -> Option<String> {
+    Some(match kind {
+        "val" | "param" | "patvar" | "armvar" => var.to_string(),
+        "ref" => format!("ref_get({})", var),
+        "clo" => format!("{}(3)", var),
+        "topfn" => format!("{}(2)", var),
+        "enumval" => format!("area({})", var),
+        "mkfn" => format!("area({}(3))", var),
         _ => return None,
-    };
-    let outer_val = match kind {
-        "val" | "patvar" | "armvar" => "x",
-        "ref" => "x",
-        "clo" | "topfn" => "x",
-        "param" => "px",
-        _ => "x",
-    };
+    })
+}
+
+/// the body of the innermost closure for context `ctx`: `e` is the use of the outer variable `var`;
+/// returns (bindings of the defining scope the context needs besides the variable, body).
+/// `None`: the combination does not exist (e.g. a `dyn` receiver that is a Ref)
+pub fn site_body(ctx: &str, kind: &str, var: &str, e: &str, c1: usize) -> Option<(String, String)> {
+    let mut bind = String::new();
+    let mut e = e.to_string();
+    let direct = matches!(kind, "val" | "param" | "patvar" | "armvar");
     // contexts whose captured variable is a container of the value
     match ctx {
         "field" => {
             let (st, fld, use_) = match kind {
                 "ref" => ("BxR", "r", "ref_get(bx.r)".to_string()),
                 "clo" | "topfn" => ("BxF", "f", "{ let h = bx.f; h(3) }".to_string()),
+                "enumval" => ("BxS", "s", "area(bx.s)".to_string()),
+                "mkfn" => ("BxM", "m", "{ let h = bx.m; area(h(3)) }".to_string()),
                 _ => ("Bx", "v", "bx.v".to_string()),
             };
-            write!(bind, "let bx = {} {{ {}: {} }}; ", st, fld, outer_val).unwrap();
+            write!(bind, "let bx = {} {{ {}: {} }}; ", st, fld, var).unwrap();
             e = use_;
         }
         "proj" => {
             let use_ = match kind {
                 "ref" => "{ let (p, q) = tp; ref_get(p) + q }",
                 "clo" | "topfn" => "{ let (p, q) = tp; p(3) + q }",
+                "enumval" => "{ let (p, q) = tp; area(p) + q }",
+                "mkfn" => "{ let (p, q) = tp; area(p(3)) + q }",
                 _ => "{ let (p, q) = tp; p + q }",
             };
-            write!(bind, "let tp = ({}, {}); ", outer_val, c1).unwrap();
+            write!(bind, "let tp = ({}, {}); ", var, c1).unwrap();
             e = use_.into();
         }
         "dyn-recv" => {
-            if !matches!(kind, "val" | "param" | "patvar" | "armvar") {
+            if !direct {
                 return None;
             }
-            write!(bind, "let dx: dyn Show = {}; ", outer_val).unwrap();
+            write!(bind, "let dx: dyn Show = {}; ", var).unwrap();
             e = "string_len(Show::show(dx))".into();
         }
         "go-named" => {
@@ -2973,32 +2976,83 @@ pub fn capture_site_program(ctx: &str, kind: &str, depth: usize, rng: &mut Rng) 
         "and-rhs" => format!("if (a < 100) && ({} < 50) {{ 1 }} else {{ 0 }}", e),
         "or-rhs" => format!("if (a > 100) || ({} < 50) {{ 1 }} else {{ 0 }}", e),
         // the typer coerces only operands whose type is already concrete: a call result goes through a typed let
-        "to-dyn" if matches!(kind, "ref" | "clo" | "topfn") => format!("{{ let t0: int32 = {}; let d: dyn Show = t0; string_len(Show::show(d)) + a }}", e),
+        "to-dyn" if !direct => format!("{{ let t0: int32 = {}; let d: dyn Show = t0; string_len(Show::show(d)) + a }}", e),
         "to-dyn" => format!("{{ let d: dyn Show = {}; string_len(Show::show(d)) + a }}", e),
         "dyn-arg" => format!("{{ let d2: dyn Sc = a; Sc::sc(d2, {}) }}", e),
         "inner-closure" => format!("{{ let g = |b: int32| b + {}; g(a) }}", e),
         _ => return None,
     };
-    // nesting: f1 creates and calls f2 creates and calls f3 …; only the innermost mentions the variable
+    Some((bind, body))
+}
+
+/// nesting: f1 creates and calls f2 creates and calls f3 …; only the innermost mentions the variable
+pub fn site_nest(body: &str, depth: usize) -> String {
     let mut clos = format!("|a: int32| {}", body);
     for lvl in (1..depth).rev() {
-        clos = format!("|a{l}: int32| {{ let f{n} = {inner}; f{n}(a{l}) }}", l = lvl, n = lvl + 1, inner = clos.replacen("|a: int32|", "|a: int32|", 1));
+        clos = format!("|a{l}: int32| {{ let f{n} = {inner}; f{n}(a{l}) }}", l = lvl, n = lvl + 1, inner = clos);
     }
+    clos
+}
+
+/// the same body evaluated IN PLACE with `a` = `arg` (bound by a match on the argument — a block is
+/// not an expression a `let` accepts — through the same chain of intermediate parameters the nested
+/// closures would pass it along)
+pub fn site_in_place(body: &str, depth: usize, arg: &str) -> String {
+    let mut inner = format!("match {} {{ a => {} }}", if depth > 1 { format!("a{}", depth - 1) } else { arg.to_string() }, body);
+    for lvl in (1..depth).rev() {
+        inner = format!("match {v} {{ a{l} => {inner} }}", l = lvl, v = if lvl > 1 { format!("a{}", lvl - 1) } else { arg.to_string() }, inner = inner);
+    }
+    inner
+}
+
+/// what the defining scope does with the closure text `clos` (or, `clos` = None, with the body
+/// evaluated in place): create it once, call it twice (a Ref it shares is updated in between), print both results
+pub fn site_core(bind: &str, body: &str, depth: usize, mutate: &str, in_place: bool) -> String {
+    if in_place {
+        format!(
+            "{bind}let r1 = {c1}; let _ = string_println(int32_to_string(r1)); {mutate}let r2 = {c4}; let _ = string_println(int32_to_string(r2)); r1 + r2",
+            bind = bind,
+            c1 = site_in_place(body, depth, "1"),
+            c4 = site_in_place(body, depth, "4"),
+            mutate = mutate
+        )
+    } else {
+        format!(
+            "{bind}let f1 = {clos}; let r1 = f1(1); let _ = string_println(int32_to_string(r1)); {mutate}let r2 = f1(4); let _ = string_println(int32_to_string(r2)); r1 + r2",
+            bind = bind,
+            clos = site_nest(body, depth),
+            mutate = mutate
+        )
+    }
+}
+
+pub const SITE_PRELUDE: &str = "enum Pair { Zero, Two(int32, int32) }\nstruct Bx { v: int32 }\nstruct BxR { r: Ref[int32] }\nstruct BxF { f: (int32) -> int32 }\ntrait Show { fn show(Self) -> string; }\nimpl Show for int32 { fn show(self: int32) -> string { \"i\" + int32_to_string(self) } }\ntrait Sc { fn sc(Self, int32) -> int32; }\nimpl Sc for int32 { fn sc(self: int32, k: int32) -> int32 { self * 10 + k } }\nfn idf(v: int32) -> int32 { v }\nfn topf(z: int32) -> int32 { z * 3 + 1 }\n";
+
+/// `None`: the combination does not exist (e.g. a `dyn` receiver that is a Ref)
+pub fn capture_site_program(ctx: &str, kind: &str, depth: usize, rng: &mut Rng) -> Option<String> {
+    let k = 2 + rng.below(7);
+    let c1 = 1 + rng.below(3);
+    // the outer binding and the int-typed use of it
+    let var = if kind == "param" { "px" } else { "x" };
+    let mut bind: String = match kind {
+        "val" => format!("let x = {}; ", k),
+        "ref" => format!("let x = ref({}); ", k),
+        "clo" => format!("let x = |z: int32| z + {}; ", k),
+        "topfn" => "let x = topf; ".into(),
+        "param" => String::new(),
+        "patvar" => format!("let (x, y0) = ({}, 1); ", k),
+        "armvar" => String::new(),
+        _ => return None,
+    };
+    let e = site_use(kind, var)?;
+    let (more, body) = site_body(ctx, kind, var, &e, c1)?;
+    bind.push_str(&more);
     let mutate = if kind == "ref" { "let _ = ref_set(x, ref_get(x) + 5); " } else { "" };
-    let core = format!(
-        "{bind}let f1 = {clos}; let r1 = f1(1); let _ = string_println(int32_to_string(r1)); {mutate}let r2 = f1(4); let _ = string_println(int32_to_string(r2)); r1 + r2",
-        bind = bind,
-        clos = clos,
-        mutate = mutate
-    );
+    let core = site_core(&bind, &body, depth, mutate, false);
     let host_body = if kind == "armvar" {
         format!("match Pair::Two({}, {}) {{ Pair::Two(x, q0) => {{ {} }}, Pair::Zero => 0 }}", k, c1, core)
     } else {
         core
     };
-    Some(format!(
-        "enum Pair {{ Zero, Two(int32, int32) }}\nstruct Bx {{ v: int32 }}\nstruct BxR {{ r: Ref[int32] }}\nstruct BxF {{ f: (int32) -> int32 }}\ntrait Show {{ fn show(Self) -> string; }}\nimpl Show for int32 {{ fn show(self: int32) -> string {{ \"i\" + int32_to_string(self) }} }}\ntrait Sc {{ fn sc(Self, int32) -> int32; }}\nimpl Sc for int32 {{ fn sc(self: int32, k: int32) -> int32 {{ self * 10 + k }} }}\nfn idf(v: int32) -> int32 {{ v }}\nfn topf(z: int32) -> int32 {{ z * 3 + 1 }}\nfn host(px: int32) -> int32 {{ {} }}\nfn main() {{ let _ = string_println(int32_to_string(host({}))); () }}\n",
-        host_body,
-        1 + rng.below(4)
-    ))
+    Some(format!("{}fn host(px: int32) -> int32 {{ {} }}\nfn main() {{ let _ = string_println(int32_to_string(host({}))); () }}\n", SITE_PRELUDE, host_body, 1 + rng.below(4)))
 }
